@@ -210,7 +210,10 @@ def main(tier_: str) -> int:
                 ln = doc_line(url, r.data, r.status_code)
                 lines.append(ln)
                 if 'patch=1' in url and ln['wf']:
-                    pl = M.project(r.data, 'http://localhost' + url).get('patch_location')
+                    try:
+                        pl = M.project(r.data, 'http://localhost' + url).get('patch_location')
+                    except ValueError:      # a document with lexically invalid numbers: judged by its own line, not followed
+                        pl = None
                     if pl:
                         patch_urls.append(pl)
             for pl in patch_urls:
